@@ -505,8 +505,13 @@ static void run_hist(char *p)
       hand_over();
       if (st == 0) {
         blk_t *b = blk_live(c_buf);
-        if (b && c_size <= b->size) lg_add("rok:%d:%zu:%u ", id_of(c_buf), c_size, adler(c_buf, c_size));
-        else lg_add("rok:%d:%zu:unreadable ", id_of(c_buf), c_size);
+        if (b && c_size <= b->size) {
+          /* oracle independent of the model: the returned bytes are the produced bytes, in order */
+          size_t q; int same = (long)c_size == j;
+          for (q = 0; same && q < c_size; q++) if (c_buf[q] != gen_byte(seed, (long)q)) same = 0;
+          if (same) lg_add("rok:%d:%zu:%u ", id_of(c_buf), c_size, adler(c_buf, c_size));
+          else lg_add("rok:%d:%zu:DIFF ", id_of(c_buf), c_size);
+        } else lg_add("rok:%d:%zu:unreadable ", id_of(c_buf), c_size);
       } else lg_add("r%s:%d:%zu:0 ", st == 1 ? "bufsize" : st == 2 ? "abort" : "other", id_of(c_buf), c_size);
     } else if (op == 'J') {
       int alloc = strtol(p, &p, 10); long N = strtol(p, &p, 10); spec_t s; int rc; ref_t *r; size_t size_before;
